@@ -454,26 +454,43 @@ func c12Order(c *core.Ctx) {
 	// decided on the normalised view (index loops are range loops there, helpers are in place)
 	fd = p.Inlined(fd)
 	info = fd.Pkg.TypesInfo
-	var loop *ast.RangeStmt
+	// the loop that reports the error: a range over the values that carries something from one
+	// entry to the next, or an index loop that compares neighbours (list[i] with list[i-1]) of
+	// a list from which the qualified entries were taken out beforehand
+	returnsErr := func(n ast.Node) bool {
+		found := false
+		ast.Inspect(n, func(m ast.Node) bool {
+			if r, ok := m.(*ast.ReturnStmt); ok && len(r.Results) == 1 && !core.IsNil(info, r.Results[0]) {
+				found = true
+			}
+			return true
+		})
+		return found
+	}
+	var loop ast.Stmt
+	var loopBody *ast.BlockStmt
+	var cur, idxVar *types.Var
+	anyLoop := false
 	for _, s := range fd.Decl.Body.List {
-		if rs, ok := s.(*ast.RangeStmt); ok && rs.Value != nil {
-			loop = rs
+		switch x := s.(type) {
+		case *ast.RangeStmt:
+			anyLoop = true
+			if x.Value != nil && returnsErr(x) {
+				loop, loopBody, cur, idxVar = x, x.Body, core.VarOf(info, x.Value), nil
+			}
+		case *ast.ForStmt:
+			anyLoop = true
+			if as, ok := x.Init.(*ast.AssignStmt); ok && len(as.Lhs) == 1 && returnsErr(x) {
+				loop, loopBody, cur, idxVar = x, x.Body, nil, core.VarOf(info, as.Lhs[0])
+			}
 		}
 	}
-	if loop == nil {
+	if !anyLoop {
 		c.Ob("C12-R2", fd.Name()+"#loop", fd.Decl.Pos(), false, "NOT FOUND: no loop over the values found")
 		return
 	}
-	cur := core.VarOf(info, loop.Value)
-	hasErr := false
-	ast.Inspect(loop, func(n ast.Node) bool {
-		if r, ok := n.(*ast.ReturnStmt); ok && len(r.Results) == 1 && !core.IsNil(info, r.Results[0]) {
-			hasErr = true
-		}
-		return true
-	})
-	if !hasErr || cur == nil {
-		c.Ob("C12-R2", fd.Name()+"#error-return", loop.Pos(), false, "the loop never returns an error")
+	if loop == nil || (cur == nil && idxVar == nil) {
+		c.Ob("C12-R2", fd.Name()+"#error-return", fd.Decl.Pos(), false, "the loop never returns an error")
 		return
 	}
 	// The function is evaluated over abstract dates, whatever it keeps from one entry to the
@@ -574,8 +591,20 @@ func c12Order(c *core.Ctx) {
 			ev.Atom = func(e ast.Expr) (any, bool) {
 				e = ast.Unparen(e)
 				switch x := e.(type) {
+				case *ast.IndexExpr:
+					// neighbour form: list[i] is the second entry, list[i-1] the first
+					if idxVar != nil {
+						if core.VarOf(info, x.Index) == idxVar {
+							return absEntry{1}, true
+						}
+						if be, ok := ast.Unparen(x.Index).(*ast.BinaryExpr); ok && be.Op == token.SUB && core.VarOf(info, be.X) == idxVar {
+							if tv, ok := info.Types[be.Y]; ok && tv.Value != nil && tv.Value.ExactString() == "1" {
+								return absEntry{0}, true
+							}
+						}
+					}
 				case *ast.Ident:
-					if info.Uses[x] == types.Object(cur) {
+					if cur != nil && info.Uses[x] == types.Object(cur) {
 						return absEntry{iter}, true // the entry itself (kept as "the previous entry" by some forms)
 					}
 				case *ast.SelectorExpr:
@@ -669,7 +698,7 @@ func c12Order(c *core.Ctx) {
 					if _, _, isDate := asDate(x.X); isDate {
 						return nil, false
 					}
-					if core.VarOf(info, x.X) == cur || core.VarOf(info, x.Y) == cur {
+					if cur != nil && (core.VarOf(info, x.X) == cur || core.VarOf(info, x.Y) == cur) {
 						if core.IsNil(info, x.X) || core.IsNil(info, x.Y) {
 							return x.Op == token.NEQ, true // the entry at hand is not a null
 						}
@@ -700,10 +729,18 @@ func c12Order(c *core.Ctx) {
 			_, _, ok := ev.RunList(preLoop)
 			var ret []any
 			reached := false
-			for iter = 0; ok && iter < len(t.entries); iter++ {
-				ret, reached, ok = ev.RunMore(loop.Body.List)
-				if reached && !(len(ret) == 1 && ret[0] == any("skip")) {
-					break
+			if idxVar != nil {
+				// neighbour form: with one entry the loop does not run; with two, once
+				if len(t.entries) >= 2 {
+					iter = len(t.entries) - 1
+					ret, reached, ok = ev.RunMore(loopBody.List)
+				}
+			} else {
+				for iter = 0; ok && iter < len(t.entries); iter++ {
+					ret, reached, ok = ev.RunMore(loopBody.List)
+					if reached && !(len(ret) == 1 && ret[0] == any("skip")) {
+						break
+					}
 				}
 			}
 			if grew {
